@@ -14,7 +14,12 @@ func corpusJobs() []*job {
 	}
 	removed := mk("F11b removed cwd, relative table name", nil, "SELECT * FROM t")
 	removed.RemovedCwd = true
-	return []*job{
+	var racy []*job
+	for k := 0; k < 14; k++ {
+		// which worker panics second depends on the schedule: several attempts
+		racy = append(racy, mk("F36 LPAD with an empty pad string, several workers", cpu4, "SELECT LPAD(s, 10, '') FROM big"))
+	}
+	return append(racy, []*job{
 		mk("F11 LIMIT NaN PERCENT", nil, "SELECT * FROM big LIMIT 'NaN' PERCENT"),
 		mk("F11 LIMIT NaN PERCENT", nil, "SELECT * FROM big ORDER BY b LIMIT 'NaN' PERCENT WITH TIES"),
 		mk("LIMIT 0 WITH TIES", nil, "SELECT * FROM big ORDER BY b LIMIT 0 WITH TIES"),
@@ -26,7 +31,17 @@ func corpusJobs() []*job {
 		mk("F36 LPAD with an empty pad string, several workers", cpu4, "SELECT LPAD(s, 10, '') FROM big"),
 		mk("F36 LPAD with an empty pad string, several workers", cpu4, "SELECT * FROM big WHERE LPAD(s, 10, '') = 'x'"),
 		removed,
-	}
+		// found by this harness (kept as fixed points of the search; each is a law failure while it is not repaired)
+		{Group: "corpus", Tags: []string{"corpus:empty file, COUNT(*)"}, Files: []fileSpec{{Name: "e.csv"}}, Stmts: []string{"SELECT COUNT(*) FROM e"}},
+		{Group: "corpus", Tags: []string{"corpus:empty LTSV file, UPDATE"}, Files: []fileSpec{{Name: "e.ltsv"}}, Stmts: []string{"UPDATE e SET `1` = 1"}},
+		mk("NUMBER_FORMAT with a huge precision", nil, "SELECT NUMBER_FORMAT(1, 4611686018427387904)"),
+		mk("window frame whose start lies after its end", nil, "SELECT MAX(i) OVER (ORDER BY i ROWS BETWEEN 0 PRECEDING AND 300 PRECEDING) FROM big"),
+		mk("window frame with an offset that overflows", nil, "SELECT AVG(c1) OVER (ORDER BY c1 ROWS BETWEEN 9223372036854775807 FOLLOWING AND 9223372036854775807 FOLLOWING) FROM t"),
+		mk("EXECUTE with a value that is not a string", nil, "EXECUTE 1"),
+		mk("JSON_VALUE with a blank JSON text", nil, "SELECT JSON_VALUE('', ' ')"),
+		mk("LPAD with a length that overflows", nil, "SELECT LPAD('a', 9223372036854775807, 'x')"),
+		{Group: "corpus", Tags: []string{"corpus:calc sub-command, panicking function"}, Fixed: []string{"calc", "lpad(c1, 5, '')"}, HasStdin: true, Stdin: []byte("1")},
+	}...)
 }
 
 // fsJobs: file-system conditions around a load or a write.
